@@ -333,6 +333,7 @@ func init() {
 			var elemT types.Type
 			var dstSlice SliceV
 			isSlice := false
+			elemBytes := 1
 			switch t := data.T.(type) {
 			case *types.Pointer:
 				elemT = t.Elem()
@@ -349,11 +350,13 @@ func init() {
 					in.unsupported("binary.Read into %s", data.T)
 				}
 			case *types.Slice:
-				if w, _, ok := intWidth(t.Elem()); !ok || w != 8 {
+				w, _, ok := intWidth(t.Elem())
+				if !ok {
 					in.unsupported("binary.Read into %s", data.T)
 				}
 				dstSlice = data.V.(SliceV)
-				n = dstSlice.Len
+				elemBytes = w / 8
+				n = dstSlice.Len * elemBytes
 				isSlice = true
 			default:
 				in.unsupported("binary.Read into %s", data.T)
@@ -366,8 +369,21 @@ func init() {
 				return err
 			}
 			if isSlice {
-				for i := 0; i < n; i++ {
-					in.writeCell(dstSlice.Arr.Kids[dstSlice.Off+i], in.readCell(buf.Kids[i]))
+				for e := 0; e < dstSlice.Len; e++ {
+					var t *Term
+					for i := 0; i < elemBytes; i++ {
+						idx := i
+						if !little {
+							idx = elemBytes - 1 - i
+						}
+						b := in.readCell(buf.Kids[e*elemBytes+idx]).(*Term)
+						if t == nil {
+							t = b
+						} else {
+							t = Concat(b, t)
+						}
+					}
+					in.writeCell(dstSlice.Arr.Kids[dstSlice.Off+e], t)
 				}
 				return IfaceV{}
 			}
@@ -398,12 +414,21 @@ func init() {
 			data := a[2].(IfaceV)
 			var bytesT []*Term
 			if sl, ok := data.T.Underlying().(*types.Slice); ok {
-				if w, _, ok2 := intWidth(sl.Elem()); !ok2 || w != 8 {
+				w, _, ok2 := intWidth(sl.Elem())
+				if !ok2 {
 					in.unsupported("binary.Write of %s", data.T)
 				}
 				s := data.V.(SliceV)
+				nb := w / 8
 				for i := 0; i < s.Len; i++ {
-					bytesT = append(bytesT, in.readCell(s.Arr.Kids[s.Off+i]).(*Term))
+					t := in.readCell(s.Arr.Kids[s.Off+i]).(*Term)
+					for k := 0; k < nb; k++ {
+						kk := k
+						if !little {
+							kk = nb - 1 - k
+						}
+						bytesT = append(bytesT, Extract(t, 8*kk+7, 8*kk))
+					}
 				}
 			} else {
 				var t *Term
@@ -680,5 +705,32 @@ func init() {
 		for _, n := range []string{"TrailingZeros", "TrailingZeros64", "TrailingZeros32", "TrailingZeros16", "TrailingZeros8"} {
 			r["math/bits."+n] = func(in *Interp, fr *Frame, a []V) V { return trailingZeros(a[0].(*Term)) }
 		}
+	})
+}
+
+func init() {
+	extraIntrinsics = append(extraIntrinsics, func(in *Interp) {
+		r := in.intr
+		// sync.Pool: no pooling (Get builds a new value, Put drops it)
+		r["(*sync.Pool).Get"] = func(in *Interp, fr *Frame, a []V) V {
+			p := a[0].(Ptr)
+			st := p.C.T.Underlying().(*types.Struct)
+			for k := 0; k < st.NumFields(); k++ {
+				if st.Field(k).Name() == "New" {
+					f := in.readCell(p.C.Kids[k]).(FuncV)
+					if f.Fn == nil {
+						return IfaceV{}
+					}
+					res := in.call(fr, f, nil, nil)
+					in.curFrame = fr
+					return res
+				}
+			}
+			return IfaceV{}
+		}
+		r["(*sync.Pool).Put"] = func(in *Interp, fr *Frame, a []V) V { return nil }
+		r["(*sync.Map).Load"] = func(in *Interp, fr *Frame, a []V) V { return TupleV{IfaceV{}, FalseT} }
+		r["(*sync.Map).Store"] = func(in *Interp, fr *Frame, a []V) V { return nil }
+		r["(*sync.Map).LoadOrStore"] = func(in *Interp, fr *Frame, a []V) V { return TupleV{a[2], FalseT} }
 	})
 }
